@@ -701,6 +701,7 @@ def check_oracles(w):
     returns {prop: [(what, detail)]}"""
     out = {"C01": [], "C02": [], "C06": [], "C08": [], "C09": []}
     stale = getattr(w, "model_stale", False)
+    stuck_dirs = []
     for f, app, dst in w.flows():
         if dst is None:
             continue
@@ -727,6 +728,9 @@ def check_oracles(w):
             if app.produced < a_plan["data"] or dst.wr != app.rd:
                 out["C01"].append(("quiescent with undelivered application data (no endpoint aborted)",
                                    {"flow": f, "produced": app.produced, "planned": a_plan["data"], "delivered": len(dst.wr)}))
+                stuck_dirs.append(f)
+            if (dst.produced < d_plan["data"] or app.wr != dst.rd) and not f22:
+                stuck_dirs.append(f)
             if dst.produced < d_plan["data"] or app.wr != dst.rd:
                 out["C02"].append(("quiescent although the reverse direction still has data to carry (half-close)",
                                    {"flow": f, "dst_produced": dst.produced, "planned": d_plan["data"],
@@ -753,6 +757,11 @@ def check_oracles(w):
         else:
             if m.too_full:
                 out["C09"].append(("pause introduced although latency control is off", {"side": side}))
+        if stuck_dirs and (not w.latency or m.too_full):
+            out["C09"].append(("transfers do not resume: quiescent with undelivered data while %s"
+                               % ("latency control is off" if not w.latency else "waiting for an acknowledgement"),
+                               {"side": side, "flows": sorted(set(stuck_dirs)), "fullness": m.fullness,
+                                "too_full": bool(m.too_full)}))
     return out
 
 
